@@ -25,9 +25,7 @@ open Fundraising.Gen Fundraising.Go
 
 /-- the keeper-API call `AddAllowedBidders`, by the translated code -/
 def translatedKadd (c : Ctx) (aid : Nat) (abs : List AllowedArg) : M Ctx :=
-  match c.s.views[aid]? with
-  | none => if (Gen.AddAllowedBidders (aid : Int) abs default true).1 then c.fail else pure c
-  | some v => Go.runPlan c aid v (Gen.AddAllowedBidders (aid : Int) abs v.a false)
+  Go.runPlanAt c aid (Gen.AddAllowedBidders (aid : Int) abs (Go.rdAuction c.s))
 
 def stepT (st : State) : Op → Outcome × State
   | .msg m => runAtomic st true (fun c => translatedDeliver c m)
@@ -42,14 +40,14 @@ def runT (st : State) (ops : List Op) : State := ops.foldl (fun s op => (stepT s
 /-- every state the translated system can be in -/
 def ReachT (st : State) : Prop := ∃ ops : List Op, runT {} ops = st
 
-theorem translatedKadd_eq (c : Ctx) (aid : Nat) (abs : List AllowedArg) :
+theorem translatedKadd_eq (c : Ctx) (hwf : WF c.s) (aid : Nat) (abs : List AllowedArg) :
     addAllowedBidders c aid abs = translatedKadd c aid abs := by
-  unfold translatedKadd
+  unfold translatedKadd Go.runPlanAt
   cases hv : c.s.views[aid]? with
   | none =>
-    obtain ⟨h1, h2⟩ := tie_AddAllowedBidders_noAuction c aid abs hv default
+    obtain ⟨h1, h2⟩ := tie_AddAllowedBidders_noAuction c aid abs hv
     simp [h1, h2]
-  | some v => simpa using tie_AddAllowedBidders c aid abs v hv
+  | some v => simpa using tie_AddAllowedBidders c aid abs v hv (hwf.views aid v hv).id
 
 /-- **one step**: in a well-formed state the translated system does exactly what the model does -/
 theorem stepT_eq_step (st : State) (hwf : WF st.core) (op : Op) : stepT st op = step st op := by
@@ -59,7 +57,7 @@ theorem stepT_eq_step (st : State) (hwf : WF st.core) (op : Op) : stepT st op = 
     rw [← refinement_deliver { s := st.core, ctl := st.ctl } hwf m]
   | kadd aid abs =>
     simp only [stepT, step, runAtomic]
-    rw [← translatedKadd_eq]
+    rw [← translatedKadd_eq { s := st.core, ctl := st.ctl } hwf]
   | block t =>
     have hwf' : WF ({ st.core with now := t } : Core) := ⟨hwf.params, hwf.views, hwf.switchOff⟩
     simp only [stepT, step, runAtomic]
